@@ -139,6 +139,9 @@ pub struct Outcome {
     pub violations: Vec<String>,
     pub ret: i64,
     pub order: Vec<u8>,
+    /// the call panicked under its documented condition (swap / index / range with bad arguments):
+    /// such a panic is the specified behaviour, not an unexplained one
+    pub documented_panic: bool,
 }
 
 fn build<const N: usize>(start: usize, size: usize, base: u8) -> CircularBuffer<N, FTok> {
@@ -227,7 +230,7 @@ fn judge<const N: usize>(c: &Case, out: &mut Outcome, b: Option<CircularBuffer<N
             out.violations.push("clone taken from a slot that holds no live element".into());
         }
     });
-    if out.panicked && c.kind == F_NONE {
+    if out.panicked && c.kind == F_NONE && !out.documented_panic {
         out.violations.push("panic without an injected fault".into());
     }
 }
@@ -303,6 +306,7 @@ fn run_n<const N: usize>(c: &Case) -> Outcome {
                 if must != out.panicked {
                     out.violations.push(format!("{}: panicked={} but the documented condition says {}", op, out.panicked, must));
                 }
+                out.documented_panic = must && out.panicked;
             }
             if matches!(op, "swap" | "index" | "index_mut" | "range" | "range_mut" | "drain_new") && out.panicked {
                 let after: Vec<u8> = b.iter().map(|t| t.0).collect();
